@@ -57,11 +57,11 @@ func bitwiseEqual(a, b [][]float64) (bool, string) {
 // other[i][j] must equal scale*base[perm[i]][perm[j]] (perm nil = identity) within 1e-9 for the pairs
 // that are well defined; undefined pairs must be undefined on both sides (both not a number, or both the
 // substitute) when the whole matrix is well conditioned; ill-conditioned pairs are not compared
-func related(base, other [][]float64, scale float64, perm []int, st [][]refdist.PairStatus, clean bool) (ill int, err error) {
-	return relatedTol(base, other, scale, perm, st, clean, refdist.LibTol)
+func related(base, other [][]float64, scale float64, perm []int, st [][]refdist.PairStatus, clean bool, extra [][]float64) (ill int, err error) {
+	return relatedTol(base, other, scale, perm, st, clean, extra, refdist.LibTol)
 }
 
-func relatedTol(base, other [][]float64, scale float64, perm []int, st [][]refdist.PairStatus, clean bool, tol refdist.Tol) (ill int, err error) {
+func relatedTol(base, other [][]float64, scale float64, perm []int, st [][]refdist.PairStatus, clean bool, extra [][]float64, tol0 refdist.Tol) (ill int, err error) {
 	n := len(base)
 	if len(other) != n {
 		return 0, fmt.Errorf("%d rows against %d", len(other), n)
@@ -80,6 +80,10 @@ func relatedTol(base, other [][]float64, scale float64, perm []int, st [][]refdi
 				continue
 			}
 			nanA, nanB := math.IsNaN(a) || math.IsInf(a, 0), math.IsNaN(b) || math.IsInf(b, 0)
+			tol := tol0.Wider(extra[pi][pj])
+			if st[pi][pj] == refdist.AllUndefined {
+				tol = tol0.Wider(extra[pi][pi]) // the substitute: conditioning of the maximum
+			}
 			switch st[pi][pj] {
 			case refdist.AllDefined:
 				if nanA || nanB || !tol.Close(a, b) {
@@ -203,7 +207,7 @@ func checkRel(c relCase) (o pbt.Outcome, err error) {
 			o.Class("one-model-object: original then transformed")
 		}
 	}
-	st, clean := refdist.Statuses(c.Rows, opt)
+	st, clean, extra := refdist.StatusesTol(c.Rows, opt)
 	internal := (opt.Model == refdist.Raw || opt.Model == refdist.PDist) && opt.GapMut == refdist.GapInternal
 	raw := opt.Model == refdist.Raw
 	differs := false
@@ -267,7 +271,7 @@ func checkRel(c relCase) (o pbt.Outcome, err error) {
 				return fmt.Errorf("%s: the same alignment, options and thread count on the same model object give another matrix after the transformed alignment was computed: %s", name, why)
 			}
 		}
-		ill, e := related(base, m, scale, perm, st, clean)
+		ill, e := related(base, m, scale, perm, st, clean, extra)
 		o.Ill += ill
 		if e != nil {
 			return fmt.Errorf("%s: %v", name, e)
@@ -902,8 +906,8 @@ func TestCLITwoAlignments(t *testing.T) {
 		if !sameStrings(tn, tnames) {
 			return o, fmt.Errorf("goalign %v: the matrix of the transformed alignment has rows %v, want %v", args, tn, tnames)
 		}
-		st, clean := refdist.Statuses(c.Rows, c.Opt)
-		ill, e := relatedTol(orig, trans, scale, perm, st, clean, refdist.CLITol)
+		st, clean, extra := refdist.StatusesTol(c.Rows, c.Opt)
+		ill, e := relatedTol(orig, trans, scale, perm, st, clean, extra, refdist.CLITol)
 		o.Ill += ill
 		if e != nil {
 			return o, fmt.Errorf("goalign %v (%s, transformed alignment first: %v): %v\n%s", args, c.Relation, c.First, e, r.Stdout)
